@@ -68,6 +68,7 @@ func init() {
 		"(time.Duration).Round":                 func(in *Interp, fn *ssa.Function, a []Value) Value { return a[0] },
 		"math/rand.Uint64":                      func(in *Interp, fn *ssa.Function, a []Value) Value { return in.freshBV("rand.Uint64", 64) },
 		"math/rand.Intn":                        iRandIntn,
+		"math/rand.Int63n":                      iRandIntn,
 		"(*expvar.Int).Add":                     iNoop,
 		"(*expvar.Int).Set":                     iNoop,
 		"(*expvar.Float).Set":                   iNoop,
